@@ -8,17 +8,20 @@
 /*@ENUM csv_parse_state@*/
 /*@ENUM csv_errc@*/
 struct csv_parser { uint8_t state_; bool more_, trim_leading_, trim_trailing_, ignore_empty_values_; char quote_char_, quote_escape_char_, field_delimiter_, subfield_delimiter_;
-                    const char* input_ptr_; size_t column_; };
+                    const char* input_ptr_; size_t column_; size_t line_; bool ignore_empty_lines_; };
 static char* vx_in; static size_t vx_n, vx_off;
 /* buffer_ and the events of one step */
 static size_t vx_buflen; static unsigned vx_pushes, vx_clears, vx_before_values, vx_trims; static char vx_pushed;
 static void vx_buf_push(char c) { vx_pushed = c; vx_pushes++; vx_buflen++; }
 static void vx_buf_clear(void) { vx_clears++; vx_buflen = 0; }
 static void vx_before_value(int* ec_p) { vx_before_values++; if (nondet_bool()) { int e = nondet_int(); __CPROVER_assume(e != 0); *ec_p = e; } }
+static unsigned vx_begin_records, vx_state_pushes;
+static void vx_begin_record(int* ec_p) { (void)ec_p; vx_begin_records++; }   /* begin_record(visitor, ec): the begin_array / begin_object event of a row */
 static int vx_spec_r;   /* what the S-CSV decoder does with this character in this state */
 static void vx_trim(void) { vx_trims++; size_t k = nondet_size(); __CPROVER_assume(k <= vx_buflen); vx_buflen = k; }
 /*@FUNC quoted_states@*/
 /*@FUNC unquoted_string@*/
+/*@FUNC expect_record@*/
 #ifdef VX_CBMC
 static struct csv_parser vx_p; static int vx_ec;
 static void setup(void)
@@ -29,7 +32,9 @@ static void setup(void)
     vx_p.quote_char_ = (char)nondet_u8(); vx_p.quote_escape_char_ = (char)nondet_u8(); vx_p.field_delimiter_ = (char)nondet_u8(); vx_p.subfield_delimiter_ = (char)nondet_u8();
     vx_p.input_ptr_ = vx_in + vx_off; vx_p.column_ = nondet_size(); __CPROVER_assume(vx_p.column_ <= SIZE_MAX / 2);
     vx_buflen = nondet_size(); __CPROVER_assume(vx_buflen <= SIZE_MAX / 2); vx_pushes = 0; vx_clears = 0; vx_before_values = 0; vx_trims = 0; vx_ec = 0;
+    vx_p.line_ = nondet_size(); __CPROVER_assume(vx_p.line_ <= SIZE_MAX / 2); vx_p.ignore_empty_lines_ = nondet_bool(); vx_begin_records = 0; vx_state_pushes = 0;
 }
 void h_quoted_states(void) { setup(); quoted_states(&vx_p, &vx_ec); }
+void h_expect_record(void) { setup(); vx_p.state_ = csv_parse_state_expect_record; vx_buflen = 0; expect_record(&vx_p, &vx_ec); }
 void h_unquoted_string(void) { setup(); unquoted_string(&vx_p, &vx_ec); }
 #endif
